@@ -1,6 +1,6 @@
 /-
   LW.Model.Slice — a Go slice as (backing array, length); capacity = length of the backing array.
-  Used for the one place where the property is about memory *outside* the slice: EncryptFRMPayload pads its argument.
+  Used where the property is about memory *outside* the slice: EncryptFRMPayload pads its argument, EncryptFOpts XORs in place.
   `goAppend` is Go's append: in place when the capacity suffices (the caller's backing array changes), otherwise a new array.
 -/
 import LW.Model.Crypto
@@ -37,5 +37,11 @@ def encryptFRMPayloadMemOld (E : BlockCipher) (key : Bytes) (uplink : Bool) (dev
   let outPadded := encryptFRMPayload E key uplink devAddr fCnt padded.bytes
   let callerArr' := if s.len + pad ≤ s.arr.length then overwrite callerArr outPadded else callerArr
   (outPadded.take s.len, callerArr')
+
+/-- `EncryptFOpts`: at most 15 bytes, XORed in place by a loop over `range data`. Returns (result, caller's array afterwards). -/
+def encryptFOptsMem (E : BlockCipher) (key : Bytes) (aFCntDown uplink : Bool) (devAddr fCnt : BitVec 32) (s : GoSlice) : Outcome Bytes × Bytes :=
+  match LW.encryptFOpts E key aFCntDown uplink devAddr fCnt s.bytes with
+  | .ok out => (.ok out, overwrite s.arr out)
+  | r => (r, s.arr)
 
 end LW.Slice
